@@ -1,5 +1,72 @@
-(* C14 - statements only. (grows) *)
-From Sbdf Require Import Obj Va VaFacts.
-Theorem C14_copy_is_equal : forall o, obj_ok o -> obj_copy o = Ok o.
-Proof. exact obj_copy_ok. Qed.
-Print Assumptions C14_copy_is_equal.
+(* C14 — allocation failure is reported, not crashed on.
+   The ledger model (Mem.v) carries an allocation counter and a failure oracle: `mfail s = Some k`
+   makes attempt number k return NULL.  The theorems below hold for EVERY state s, hence for every
+   k (and for no failure at all): the call never faults; when it fails it returns a non-OK status
+   and a null pointer and the heap is exactly as before (nothing leaked, nothing for the caller
+   to free, objects built before untouched); when it succeeds everything outside the new blocks is
+   untouched.  Covered functions: the object constructors / copy / reader skeleton, the plain
+   value-array constructor and extraction.  The other API calls are covered by the fault
+   enumeration (every k of every scenario on the sanitizer build) only.
+   Statements only; proofs in MemFacts.v. *)
+From Sbdf Require Import Mem MemFacts.
+
+Theorem C14_object_constructors : forall ty count s, fresh_inv s ->
+  match obj_build ty count s with
+  | Flt _ => False
+  | Val (st, p) s' =>
+    fresh_inv s' /\ mfail s' = mfail s /\
+    ((st = SBDF_OK /\ exists t blocks, p = Some t /\ obj_at s' t ty count blocks /\ all_fresh s blocks /\
+        (forall x, ~ In x blocks -> find x s' = find x s)) \/
+     (st <> SBDF_OK /\ p = None /\ same_heap s s'))
+  end.
+Proof. exact obj_build_spec. Qed.
+Print Assumptions C14_object_constructors.
+
+Theorem C14_object_copy : forall s src ty count blocks, fresh_inv s -> obj_at s src ty count blocks ->
+  match obj_copy_m (Some src) s with
+  | Flt _ => False
+  | Val (st, p) s' =>
+    fresh_inv s' /\
+    ((st = SBDF_OK /\ exists t cblocks, p = Some t /\ obj_at s' t ty count cblocks /\ all_fresh s cblocks /\
+        (forall b, In b blocks -> ~ In b cblocks) /\ obj_at s' src ty count blocks /\
+        (forall x, ~ In x cblocks -> find x s' = find x s)) \/
+     (st <> SBDF_OK /\ p = None /\ same_heap s s'))
+  end.
+Proof. exact obj_copy_spec. Qed.
+Print Assumptions C14_object_copy.
+
+Theorem C14_value_array_create : forall s src ty count blocks, fresh_inv s -> obj_at s src ty count blocks ->
+  match va_create_plain_m (Some src) s with
+  | Flt _ => False
+  | Val (st, p) s' =>
+    fresh_inv s' /\
+    ((st = SBDF_OK /\ exists h vblocks, p = Some h /\ va_at s' h ty count vblocks /\ all_fresh s vblocks /\
+        (forall b, In b blocks -> ~ In b vblocks) /\ obj_at s' src ty count blocks /\
+        (forall x, ~ In x vblocks -> find x s' = find x s)) \/
+     (st <> SBDF_OK /\ p = None /\ same_heap s s'))
+  end.
+Proof. exact va_create_plain_spec. Qed.
+Print Assumptions C14_value_array_create.
+
+Theorem C14_value_extraction : forall s h ty count blocks, fresh_inv s -> va_at s h ty count blocks ->
+  match va_get_values_plain_m (Some h) s with
+  | Flt _ => False
+  | Val (st, p) s' =>
+    fresh_inv s' /\
+    ((st = SBDF_OK /\ exists t cb, p = Some t /\ obj_at s' t ty count cb /\ all_fresh s cb /\
+        (forall b, In b blocks -> ~ In b cb) /\ va_at s' h ty count blocks) \/
+     (st <> SBDF_OK /\ p = None /\ same_heap s s'))
+  end.
+Proof. exact va_get_values_plain_spec. Qed.
+Print Assumptions C14_value_extraction.
+
+(* the failing attempt really is reached: with the oracle set to the first attempt the call fails *)
+Example C14_first_attempt_fails : forall ty count, exists s', obj_build ty count (mst0 (Some 0%nat)) = Val (SBDF_ERROR_OUT_OF_MEMORY, None) s'.
+Proof. intros. eexists. reflexivity. Qed.
+
+Example C14_third_attempt_fails_in_a_string_object :
+  match obj_build SBDF_STRINGTYPEID 3 (mst0 (Some 2%nat)) with
+  | Val (st, p) s' => st = SBDF_ERROR_OUT_OF_MEMORY /\ p = None /\ PM.cardinal (mlive s') = 0%nat
+  | Flt _ => False
+  end.
+Proof. vm_compute. auto. Qed.
